@@ -17,6 +17,8 @@ func main() {
 		posaReplay(os.Args[2], os.Args[3])
 	case "posa-smoke": // <router> : a hand-written valid chain, prints observations (development aid)
 		posaSmoke(os.Args[2])
+	case "msc-smoke":
+		mscSmoke()
 	case "proof-table": // <router> <g0> <best> <wait> <forkAt> <depositAt> <variants> ; stdin: ROW lines of EvmProof.tla
 		proofTable(os.Args[2:])
 	default:
